@@ -20,13 +20,19 @@ def machines(tier):
                 with_ite=False, with_foa=False)
     xor3 = dict(names=('x', 'y', 'z'), max_handles=2, max_ext=1, ops=('xor',),
                 with_ite=False, with_foa=False, seeds=('fresh', 'used'))
+    # reorderings to explicit orders / pairs share one level table across swaps and do NOT
+    # collect first: histories where garbage is present when they start
+    sort3 = dict(names=('x', 'y', 'z'), max_handles=2, max_ext=1, ops=('and',),
+                 with_ite=False, with_foa=False, with_refops=True, with_sort=True,
+                 with_reorder=False, seeds=('fresh', 'used'))
     full3 = dict(names=('x', 'y', 'z'), max_handles=3, max_ext=2, ops=('and', 'xor'),
                  seeds=('fresh', 'used', 'swapped', 'warm'))
     if tier == 'quick':
-        plan = [('full2', full2, 3), ('refs2', refs2, 5), ('ops2', ops2, 5), ('xor3', xor3, 6)]
+        plan = [('full2', full2, 3), ('refs2', refs2, 5), ('ops2', ops2, 5), ('xor3', xor3, 6),
+                ('sort3', sort3, 4)]
     else:
         plan = [('full2', full2, 4), ('refs2', refs2, 6), ('ops2', ops2, 6), ('xor3', xor3, 8),
-                ('full3', full3, 4)]
+                ('full3', full3, 4), ('sort3', sort3, 5)]
     out = []
     for label, kw, depth in plan:
         kw = dict(kw)
@@ -45,7 +51,7 @@ def _mach(case):
 
 
 def replay(case):
-    m = BddMachine(tuple(case['names']), max_handles=9, max_ext=9)
+    m = BddMachine(tuple(case['names']), max_handles=9, max_ext=9, with_sort=True)
     return m.replay(case)
 
 
